@@ -177,6 +177,7 @@ def _has_cycle_and_parallel(*lexs):
 def check_entities(rec, w, view, steps, r, label):
     import wn
     sel = set(view.sel)
+    runaways = 0
     for kind, items, types_pool in (('synset', w.synsets(), TYPES_SS), ('sense', w.senses(), TYPES_S)):
         table = view.t.synsets if kind == 'synset' else view.t.senses
         for x in items:
@@ -217,6 +218,7 @@ def check_entities(rec, w, view, steps, r, label):
                 want_reach = reachable(view, key, kind, T)
                 budget = (len(want_reach) + 1) * 3 + 5
                 steps.n = 0
+                steps.cap = 200 * (len(want_reach) + 1) + 500
                 steps.armed = True
                 got_c = []
                 try:
@@ -229,6 +231,9 @@ def check_entities(rec, w, view, steps, r, label):
                 except StepBudget as exc:
                     rec.violation('closure-runaway', f'{label}: {key}.closure{T}: {exc}')
                     steps.armed = False
+                    runaways += 1
+                    if runaways >= 3:
+                        return
                     continue
                 steps.armed = False
                 rec.event('closure.compared')
@@ -246,6 +251,7 @@ def check_entities(rec, w, view, steps, r, label):
                     rec.event('paths.skipped-too-many')
                     continue
                 steps.n = 0
+                steps.cap = 200 * (prefixes + 1) + 500
                 steps.armed = True
                 got_p = []
                 bad = False
@@ -259,6 +265,10 @@ def check_entities(rec, w, view, steps, r, label):
                 except StepBudget as exc:
                     rec.violation('paths-runaway', f'{label}: {key}.relation_paths{T}: {exc}')
                     bad = True
+                    runaways += 1
+                    if runaways >= 3:
+                        steps.armed = False
+                        return
                 steps.armed = False
                 rec.event('paths.compared')
                 rec.event('steps.paths', steps.n)
